@@ -5,18 +5,47 @@
    the whole query domain are printed once.  The inputs of the harness are
    histories x queries, i.e. every DoFind / DoApi transition of Chronicle. *)
 EXTENDS Chronicle_MC, Json
-VARIABLE h
-gvars == <<vars, h>>
+VARIABLES h, miss, stale
+gvars == <<vars, h, miss, stale>>
 Table == [cal |-> Cal, tod |-> Tod, at |-> EntAt, run |-> EntRun, st |-> EntSt, zone |-> ZoneOff]
-GenInit == /\ Init /\ h = <<>>
+GenInit == /\ Init /\ h = <<>> /\ miss = {} /\ stale = {}
            /\ PrintT(<<"TABLE", ToJson(Table)>>)
            /\ \A x \in Queries, z \in DOMAIN ZoneOff :   \* every query, its bounds written in every zone
                   PrintT(<<"QUERY", ToJson(<<x.after, x.before, x.limit, IF x.ok THEN 1 ELSE 0, x.now, z>>)>>)
            /\ \A e \in Cand, b \in Bounds \cup {0} :         \* readers: df_model_statistics(node of e) with boot time b
                   PrintT(<<"READER", ToJson(<<b, e>>)>>)
-GenNext == \E e \in Cand : DoAppend(e) /\ h' = Append(h, e)
+GenNext == \E e \in Cand : DoAppend(e) /\ h' = Append(h, e) /\ UNCHANGED <<miss, stale>>
 GenSpec == GenInit /\ [][GenNext]_gvars
 View == vars
 (* an invariant is evaluated once per distinct state: one witness history per state of the files *)
 HistInv == PrintT(<<"HIST", ToJson(h)>>)
+
+-----------------------------------------------------------------------------
+(* ONE PROCESS LIFE: queries BETWEEN appends.  miss = what the queries of this life observed
+   (Chronicle!FindObs, restricted to what an append of the model can outdate) and is still true,
+   stale = what they observed and a later append has outdated.  A restart forgets both.  h is the
+   event history: <<0, e, ..>> append, <<1, after, before, limit, ok, now>> query, <<2, ..>> restart.
+   One witness life per distinct (files, miss, stale): every way in which the memory of a process
+   can lag behind the files, within the bounded model.  The harness runs the life on the real code
+   (one Python process, the module state lives on between the events) and asks further queries
+   at its end; every answer, those inside the life included, is judged by FindOK. *)
+Rel == UNION { Outdated(e) : e \in Cand }
+LifeInit == Init /\ h = <<>> /\ miss = {} /\ stale = {}
+LAppend(e) == /\ DoAppend(e)
+              /\ h' = Append(h, <<0, e, 0, 0, 0, 0>>)
+              /\ LET out == miss \cap Outdated(e) IN miss' = miss \ out /\ stale' = stale \cup out
+LFind(x) == /\ DoFind(x)
+            /\ h' = Append(h, <<1, x.after, x.before, x.limit, IF x.ok THEN 1 ELSE 0, x.now>>)
+            /\ miss' = miss \cup (FindObs(journal, x) \cap Rel)
+            /\ UNCHANGED stale
+LReopen == /\ miss \cup stale # {}
+           /\ kind' = "stats" /\ q' = NoQ /\ res' = <<>> /\ UNCHANGED <<journal, appended>>
+           /\ h' = Append(h, <<2, 0, 0, 0, 0, 0>>)
+           /\ miss' = {} /\ stale' = {}
+LifeNext == \/ \E e \in Cand : LAppend(e)
+            \/ \E x \in Queries : LFind(x)
+            \/ LReopen
+LifeSpec == LifeInit /\ [][LifeNext]_gvars
+LifeView == <<journal, miss, stale>>
+LifeInv == PrintT(<<"LIFE", ToJson(<< h, <<Cardinality(miss), Cardinality(stale)>> >>)>>)
 =============================================================================
